@@ -144,6 +144,109 @@ def ltf_step(W, cfg, bound=None, use_lpsd=False, prior=False):
     return I, env, env1, post, args
 
 
+# ---------------------------------------------------------------------------- monotonicity of the step map, proved as a chain
+def _rounding_cuts(body):
+    """indices of the top-level statements `name = ...int/round...(...)` of the loop body, with the loop-assigned names each one reads"""
+    cuts = []
+    assigned = set()
+    for i, st in enumerate(body):
+        if isinstance(st, ast.Assign) and len(st.targets) == 1 and isinstance(st.targets[0], ast.Name):
+            calls = [c for c in ast.walk(st.value) if isinstance(c, ast.Call) and isinstance(c.func, ast.Name) and c.func.id in ("int", "round", "round_half_up", "_round_half_up")]
+            if calls:
+                reads = sorted({n.id for n in ast.walk(st.value) if isinstance(n, ast.Name) and n.id in assigned})
+                cuts.append((i, st.targets[0].id, reads))
+        for n in ast.walk(st):
+            if isinstance(n, ast.Name) and isinstance(n.ctx, ast.Store):
+                assigned.add(n.id)
+    return cuts
+
+
+def ob_mono_chain(W, sched, seg, split=None):
+    """L never increases and K never decreases along a plan <= the step map (one loop iteration, state fi -> (L, K)) is monotone in fi
+    (the next state is fi + r with r > 0: C03).  Two independent copies of the iteration from arbitrary states fi <= fi2 are compared;
+    because the whole body is beyond the solvers in one query (sqrt, two roundings, division), the body is cut at its two rounding
+    statements and each piece is proved for ARBITRARY values of the one quantity crossing the cut:
+      A  [start .. first rounding)   : the resolution-like quantity v feeding the first rounding is positive and non-decreasing in fi
+      B  [first .. second rounding)  : v2 >= v1 > 0 arbitrary  =>  the length-like quantity m read by the second rounding satisfies m2 <= m1, 1 <= m <= N
+      C  [second rounding .. end]    : m2 <= m1 arbitrary in [1, N]  =>  L2 <= L1 and K2 >= K1
+    A and B are posed as lemmas: a counterexample there starts from a pre-state no run need reach and is only reported if a real plan
+    of the model's configuration is non-monotone (replay); C carries the property's goals."""
+    cfg = config(W)
+    if not W.sym:
+        return concrete_goals(W, sched, cfg, _GOALS["mono"])
+    Sm = S()
+    fd = astx.get_function_ast(Sm.ltf_plan)
+    pre, wh, post = split_body(fd)
+    I = astx.Interp(glob_for(Sm), loop_bound=4)
+    args = dict(cfg)
+    if sched == "lpsd":
+        rec = {}
+        from symx.shim import clone
+        clone(Sm.lpsd_plan, ltf_plan=lambda **kw: rec.update(kw) or {"rec": True})(**args)
+        args = rec
+    env = I.block(pre, {"args": args})
+    rhu_summary(I, env, W)
+    add_pow_facts(W, cfg)
+    lv = [n.id for n in ast.walk(wh.test) if isinstance(n, ast.Name) and n.id in env and isinstance(env[n.id], SR)]
+    if not lv:
+        raise Unsupported("cannot identify the loop variable of the scheduler's main loop")
+    loopvar = lv[0]
+    body = list(wh.body)
+    cuts = _rounding_cuts(body)
+    if len(cuts) < 2 or len(cuts[0][2]) != 1 or len(cuts[1][2]) != 1:
+        raise Unsupported("loop body does not have the two rounding statements (length, averages) the chain is cut at")
+    (iL, nameL, (v,)), (iK, nameK, (m,)) = cuts[0], cuts[1]
+    if m != nameL:
+        raise Unsupported("the second rounding does not read the result of the first")
+    N = cfg["N"]
+    f1 = W.real("fi"); f2 = W.real("fi2")
+    W.assume(f1 >= env[loopvar]); W.assume(f2 >= f1)
+    e1, e2 = dict(env), dict(env)
+    e1[loopvar], e2[loopvar] = f1, f2
+    W.assume(I.ev(wh.test, e1)); W.assume(I.ev(wh.test, e2))
+
+    def run(a, b, ea, eb):
+        ra, rb = I.block(body[a:b], dict(ea)), I.block(body[a:b], dict(eb))
+        add_pow_facts(W, cfg)
+        return ra, rb
+    if seg == "A":
+        j = split if split is not None else iL
+        ra, rb = run(0, j, e1, e2)
+        if v not in ra:
+            raise Unsupported("the quantity feeding the first rounding is not assigned in the first %d statements" % j)
+        tag = "" if split is None else "1"
+        W.aux_goal("C04/chain-A%s:resolution>0" % tag, W.And(ra[v] > 0, rb[v] > 0))
+        W.aux_goal("C04/chain-A%s:resolution nondecreasing in f" % tag, rb[v] >= ra[v])
+        return
+    if seg == "A2":
+        # second half of A from an arbitrary pair of positive, ordered resolutions
+        j = split
+        v1, v2 = W.real("v1"), W.real("v2")
+        W.assume(v1 > 0); W.assume(v2 >= v1)
+        e1[v], e2[v] = v1, v2
+        ra, rb = run(j, iL, e1, e2)
+        W.aux_goal("C04/chain-A2:resolution>0", W.And(ra[v] > 0, rb[v] > 0))
+        W.aux_goal("C04/chain-A2:resolution nondecreasing in f", rb[v] >= ra[v])
+        return
+    if seg == "B":
+        v1, v2 = W.real("v1"), W.real("v2")
+        W.assume(v1 > 0); W.assume(v2 >= v1)
+        e1[v], e2[v] = v1, v2
+        ra, rb = run(iL, iK, e1, e2)
+        W.aux_goal("C04/chain-B:1<=length<=N", W.And(ra[m] >= 1, ra[m] <= N, rb[m] >= 1, rb[m] <= N))
+        W.aux_goal("C04/chain-B:length nonincreasing in resolution", rb[m] <= ra[m])
+        return
+    if seg == "C":
+        m1, m2 = W.int("m1", lo=1), W.int("m2", lo=1)
+        W.assume(m1 <= N); W.assume(m2 <= m1)
+        e1[m], e2[m] = m1, m2
+        ra, rb = run(iK, len(body), e1, e2)
+        W.goal("C04/L-nonincreasing", rb[nameL] <= ra[nameL])
+        W.goal("C04/K-nondecreasing", rb[nameK] >= ra[nameK])
+        return
+    raise ValueError(seg)
+
+
 def ltf_segmentation(W, I, env1, post, bound):
     """statements after the while (nf, per-bin averages and starts) on the single appended bin; the
     start loop is unrolled `bound` times (iteration k guarded by k<averages) with an unwinding assertion"""
@@ -451,6 +554,19 @@ def _ob_ltf_sym(W, sched, part, bound, cfg, prior=False):
             same = all((args[k] is cfg[k]) for k in ("N", "fs", "olap", "Jdes", "Kdes"))
             W.goal("C03/lpsd=ltf(bmin=1,Lmin=1)", same and (not isinstance(args["bmin"], SR)) and args["bmin"] == 1.0 and (not isinstance(args["Lmin"], SR)) and args["Lmin"] == 1 and set(args) == set(cfg))
         return
+    if part == "mono":
+        # monotonicity of the step map: two INDEPENDENT copies of one iteration from arbitrary states fi <= fi2 (consecutive bins are
+        # one instance: the next state is fi + r with r > 0, C03); L(fi2) <= L(fi) and K(fi2) >= K(fi)
+        wh = split_body(astx.get_function_ast(S().ltf_plan))[1]
+        fi2 = W.real("fi2")
+        W.assume(fi2 >= fi)
+        envb = dict(env0); envb[loopvar] = fi2
+        W.assume(I.ev(wh.test, envb))
+        env2 = I.block(wh.body, envb)
+        add_pow_facts(W, cfg)
+        W.goal("C04/L-nonincreasing", env2["dftlen"] <= L)
+        W.goal("C04/K-nondecreasing", env2["nseg"] >= K)
+        return
     if part == "twostep":
         wh = split_body(astx.get_function_ast(S().ltf_plan))[1]
         W.assume(I.ev(wh.test, env1))
@@ -606,6 +722,7 @@ _GOALS = {
     "step": ["C02/noraise", "C02/L-range", "C02/K>=1", "C03/r*L=fs", "C03/next=f+r", "C03/r>0", "C03/b=f*L/fs", "C03/f<nyquist", "C03/b>=bmin-allowance",
              "C03/f0=bmin*fs/N", "C03/stored", "C03/lpsd=ltf(bmin=1,Lmin=1)"] + _VC,
     "twostep": ["C04/L-nonincreasing", "C04/K-nondecreasing"],
+    "mono": ["C04/L-nonincreasing", "C04/K-nondecreasing"],
     "regime": ["C04/|L-L*|<=1/2", "C04/r/f=logfact up to rounding", "C04/K>=Kdes-level"],
     "seg": ["C02/unwinding:for-range", "C02/K=navg=len(D)", "C02/K>=1", "C02/K=1=>L=N", "C02/L-range", "C02/starts-in-range", "C02/first-start=0", "C02/starts-increasing",
             "C02/last-start=N-L", "C04/K<=N-L+1", "C04/K=nearest(capped)", "C04/even-spread", "C02/plan-K-is-step-K"] + _VC,
@@ -662,6 +779,81 @@ def vec_step(W, cfg, fork_ifs=False, prior=False):
     env1 = I.block(wh.body, env)
     add_pow_facts(W, cfg)
     return I, env, env1, post, rho, st
+
+
+def ob_mono_chain_vec(W, seg):
+    """vectorized_ltf_plan: the lookup maps are monotone along the grid (L non-increasing, K non-decreasing on a generic adjacent pair
+    g0 < g1 of the grid; the walker reads the maps at non-decreasing indices), proved as a chain cut at the two np.round statements of
+    phase 1 -- the same three links as for the iterative schedulers, the 'two copies' being the two grid points"""
+    cfg = config(W)
+    if not W.sym:
+        return concrete_goals(W, "vec", cfg, _GOALS["mono"])
+    Sm = S()
+    fd = astx.get_function_ast(Sm.vectorized_ltf_plan)
+    pre, wh, post = split_body(fd)
+    g0 = W.real("g0"); rho = W.real("rho")
+    W.assume(g0 > 0); W.assume(rho > 1)
+    grid = oarr([g0, g0 * rho])
+
+    def logspace(a, b, n, **k):
+        if not (is_sym_(a) or is_sym_(b)):
+            return rnp.logspace(a, b, n, **k)
+        return grid.copy().view(SymNd)
+    I = astx.Interp(glob_for(Sm, {"np_over": dict(logspace=logspace)}))
+    W.run.fork_masks = False
+    N = cfg["N"]
+
+    def is_round(st):
+        return isinstance(st, ast.Assign) and len(st.targets) == 1 and isinstance(st.targets[0], ast.Name) and any(
+            isinstance(c, ast.Call) and ((isinstance(c.func, ast.Attribute) and c.func.attr in ("round", "rint", "around")) or (isinstance(c.func, ast.Name) and c.func.id in ("round",)))
+            for c in ast.walk(st.value))
+    cuts = [i for i, st in enumerate(pre) if is_round(st)]
+    if len(cuts) < 2:
+        raise Unsupported("phase 1 does not have the two rounding statements the chain is cut at")
+    iL, iK = cuts[0], cuts[1]
+    env = {"args": dict(cfg)}
+    n_side = None
+    for i, st in enumerate(pre[:iL]):
+        env = I.block([st], env)
+    add_pow_facts(W, cfg)
+
+    def arrays_read(st, env):
+        return sorted({n.id for n in ast.walk(st.value) if isinstance(n, ast.Name) and isinstance(env.get(n.id), rnp.ndarray) and env[n.id].dtype == object})
+    vs = arrays_read(pre[iL], env)
+    if len(vs) != 1:
+        raise Unsupported("the first rounding reads %d arrays" % len(vs))
+    v = vs[0]
+    if seg == "A":
+        W.assume(grid[1] >= env["fmin"]) if "fmin" in env else None
+        W.aux_goal("C04/chain-A:resolution>0", W.And(env[v][0] > 0, env[v][1] > 0))
+        W.aux_goal("C04/chain-A:resolution nondecreasing in f", env[v][1] >= env[v][0])
+        return
+    v1, v2 = W.real("v1"), W.real("v2")
+    W.assume(v1 > 0); W.assume(v2 >= v1)
+    env[v] = oarr([v1, v2]).view(SymNd)
+    for st in pre[iL:iK]:
+        env = I.block([st], env)
+    ms = [x for x in arrays_read(pre[iK], env) if x != v]
+    if len(ms) != 1:
+        raise Unsupported("the second rounding reads %d arrays" % len(ms))
+    m = ms[0]
+    if seg == "B":
+        W.aux_goal("C04/chain-B:1<=length<=N", W.And(env[m][0] >= 1, env[m][0] <= N, env[m][1] >= 1, env[m][1] <= N))
+        W.aux_goal("C04/chain-B:length nonincreasing in resolution", env[m][1] <= env[m][0])
+        from symx.proxy import int_view
+        W.aux_goal("C04/chain-B:length integral", all(int_view(tz(env[m][i])) is not None for i in (0, 1)))       # integral by construction (rounding, clamps between integers)
+        return
+    if seg == "C":
+        m1, m2 = W.int("m1", lo=1), W.int("m2", lo=1)
+        W.assume(m1 <= N); W.assume(m2 <= m1)
+        env[m] = oarr([SR(z3.ToReal(m1.t)), SR(z3.ToReal(m2.t))]).view(SymNd)
+        for st in pre[iK:]:
+            env = I.block([st], env)
+        Lm, Km = env["L_map"], env["K_map"]
+        W.goal("C04/L-nonincreasing", SR(tz(Lm[1])) <= SR(tz(Lm[0])))
+        W.goal("C04/K-nondecreasing", SR(tz(Km[1])) >= SR(tz(Km[0])))
+        return
+    raise ValueError(seg)
 
 
 def ob_vec(W, part, fork_ifs=False, prior=False):
@@ -781,6 +973,10 @@ def ob_new(W, part):
     raise ValueError(part)
 
 
+for _n in ("C04/chain-A:resolution>0", "C04/chain-A:resolution nondecreasing in f", "C04/chain-A1:resolution>0", "C04/chain-A1:resolution nondecreasing in f",
+           "C04/chain-A2:resolution>0", "C04/chain-A2:resolution nondecreasing in f", "C04/chain-B:1<=length<=N", "C04/chain-B:length nonincreasing in resolution", "C04/chain-B:length integral"):
+    ALIAS[_n] = "C04/L-nonincreasing"      # a counterexample to a link is a finding only if a real plan of that configuration is non-monotone
+    _GOALS["mono"].append(_n)
 _GOALS["new-step"] = _GOALS["vec-step"] + ["C02/invariant-preserved", "C02/invariant-initial"]
 ALIAS["C02/invariant-preserved"] = None
 ALIAS["C02/invariant-initial"] = None
